@@ -123,6 +123,13 @@ func EvalWith(p Program, opts EvalOpts) Expected {
 		a := ev.apply(base, Op{Kind: OpReshard, N: p.N1}, nil)
 		b := ev.apply(base, Op{Kind: OpReshard, N: p.N2}, nil)
 		d = cogroup(a, b)
+	case ShapeResult:
+		first := EvalWith(*p.Prev, opts)
+		t, _ := p.RootType()
+		d = unknown(t, first.NumShard, first.Rows)
+		if first.Loose != nil || first.Undetermined {
+			exp.Undetermined = true
+		}
 	case ShapeFanout:
 		x := ev.apply(src(p.Src), Op{Kind: OpMap, Var: MapAdd1}, nil)
 		d = cogroup(ev.apply(x, fanoutOp(p.N1), nil), ev.apply(x, fanoutOp(p.N2), nil))
@@ -254,7 +261,7 @@ func cogroup(in ...dataset) dataset {
 			n = d.n
 		}
 		for _, c := range d.typ.Cols[prefix:] {
-			t.Cols = append(t.Cols, c+2)
+			t.Cols = append(t.Cols, c.grouped())
 		}
 		var o []string
 		o, gs[i] = groups(d.all(), prefix)
@@ -281,6 +288,12 @@ func cogroup(in ...dataset) dataset {
 					vals := []string{}
 					for _, r := range gs[i][k] {
 						vals = append(vals, r[c].(string))
+					}
+					row = append(row, vals)
+				case PtCol:
+					vals := []Pt{}
+					for _, r := range gs[i][k] {
+						vals = append(vals, r[c].(Pt))
 					}
 					row = append(row, vals)
 				}
